@@ -358,6 +358,24 @@ def streams(rng, tier):
                      "bad=0 against the harness' independent reference, hash equal to the model's")
     st.shrinkable = False
     out.append(st)
+    # ---- Token::F16 (the token API carries a half as an f32 and writes it through Encoder::f16): same rounding, NaN stays NaN
+    tk = []
+    nan32 = [0x7f800001, 0xff800001, 0x7f801fff, 0x7f802000, 0x7fc00000, 0xffc00000, 0x7fffffff, 0x7f800400, 0xff801000, 0x7fa00000]
+    for b in nan32 + pats[::(41 if tier == "quick" else 5)] + [rng.getrandbits(32) | 0x7f800000 for _ in range(200)]:
+        tk.append(f"tokenc f16:x{b:08x}")
+    def judge_tok16(op, impl, model, spec):
+        bits = int(op.split(" ")[1][5:], 16)
+        hx = impl.split(" ")[0]
+        if len(hx) != 6 or not hx.startswith("f9"):
+            return "violation"
+        r = int(hx[2:], 16)
+        exp = half_rne(bits)
+        good = (r == exp) if exp is not None else (isnan16(r) and (r >> 15) == (bits >> 31))
+        if not good:
+            return "violation"
+        return "ok" if impl == model else "corr"
+    out.append(Stream("token-f16", "hcore", tk, judge=judge_tok16, nontrivial=lambda op, impl: impl.startswith("f9"),
+                      rule="tokenc f16:<f32 bits>: Token::F16 through Encode for Token: round to nearest even like Encoder::f16, a NaN (payload anywhere, either sign) stays a NaN"))
     from verifkit import dextra
     out.append(dextra.stream(rng, tier, floats_only=True))
     for s in out:
@@ -374,6 +392,8 @@ def replay_streams(rp):
     if op.startswith("dextra"):
         from verifkit import dextra
         return [dextra.replay(rp)]
+    if op.startswith("tokenc"):
+        return [s for s in streams(__import__("random").Random(1), "quick") if s.name == "token-f16"][:1] and [Stream("replay", "hcore", [op], judge=[s for s in streams(__import__("random").Random(1), "quick") if s.name == "token-f16"][0].judge)]
     if op.startswith("tenc"):
         return [Stream("replay", "hcore", [op], judge=judge_trait)]
     if op.startswith("seq"):
